@@ -495,3 +495,126 @@ func (h *H) directedMembers() {
 		}
 	}
 }
+
+// ---------- parameter lists with null entries ("params":[null] -> a nil *fftypes.FFIParam) ----------
+
+type nullDesc struct {
+	Kind    string   `json:"kind"` // backnull/method|event|error
+	Origin  string   `json:"origin"`
+	Name    string   `json:"name"`
+	Params  []*pdesc `json:"params"` // null = a null entry
+	Returns []*pdesc `json:"returns,omitempty"`
+	Impl    string   `json:"impl"`
+}
+
+func ffiParamsN(ps []*pdesc) fftypes.FFIParams {
+	out := make(fftypes.FFIParams, len(ps))
+	for i, p := range ps {
+		if p != nil {
+			out[i] = &fftypes.FFIParam{Name: p.Name, Schema: fftypes.JSONAnyPtr(p.Schema)}
+		}
+	}
+	return out
+}
+
+// addBackNull: one FFI -> ABI conversion of a definition decoded from JSON text (so the nil entries are
+// the ones encoding/json makes), class only; the model is ConvertFFI*ToABI_opt.
+func (h *H) addBackNull(kind int, name string, params, returns []*pdesc, origin string) int {
+	// (json.Unmarshal of {"name":"f","params":[null]} into fftypes.FFIMethod gives exactly this: a nil *FFIParam in
+	// the slice - checked once in nullCorpus)
+	text := fmt.Sprintf("%v|%v", params, returns)
+	var e *abi.Entry
+	var err error
+	pan := ""
+	func() {
+		defer func() {
+			if x := recover(); x != nil {
+				pan = fmt.Sprint(x)
+			}
+		}()
+		switch kind {
+		case 0:
+			e, err = ffi2abi.ConvertFFIMethodToABI(ctx, &fftypes.FFIMethod{Name: name, Params: ffiParamsN(params), Returns: ffiParamsN(returns)})
+		case 1:
+			e, err = ffi2abi.ConvertFFIEventDefinitionToABI(ctx, &fftypes.FFIEventDefinition{Name: name, Params: ffiParamsN(params)})
+		default:
+			e, err = ffi2abi.ConvertFFIErrorDefinitionToABI(ctx, &fftypes.FFIErrorDefinition{Name: name, Params: ffiParamsN(params)})
+		}
+	}()
+	cls, impl := 0, "ok"
+	switch {
+	case pan != "":
+		cls, impl = 2, "PANIC "+pan
+	case err != nil:
+		cls, impl = 1, "error: "+err.Error()
+	case e == nil:
+		cls, impl = 2, "nil entry and nil error"
+	}
+	pl := func(ps []*pdesc) string {
+		out := make([]string, len(ps))
+		for i, p := range ps {
+			if p == nil {
+				out[i] = "None"
+				continue
+			}
+			c, _, _ := coqPin(p.Name, p.Schema)
+			out[i] = "(Some " + c + ")"
+		}
+		return clist(out)
+	}
+	if kind != 0 {
+		returns = nil
+	}
+	h.st.Hit(fmt.Sprintf("backnull:%s:class=%d", origin, cls))
+	h.w.Add(fmt.Sprintf("CBackN %d %s %s %s %d", kind, cb(name), pl(params), pl(returns), cls),
+		nullDesc{Kind: "backnull/" + kindNames[kind], Origin: origin, Name: name, Params: params, Returns: returns, Impl: impl})
+	for _, p := range append(append([]*pdesc{}, params...), returns...) {
+		if p != nil {
+			text += "|" + p.Name + "|" + p.Schema
+		}
+	}
+	dk := fmt.Sprintf("n|%d|%s|%s", kind, name, text)
+	if !h.seen[dk] {
+		h.seen[dk] = true
+		h.st.Distinct++
+	}
+	return cls
+}
+
+// nullCorpus: a null entry first / in the middle / last / alone / twice, among the inputs and the outputs, beside good
+// and bad parameters, for the three conversions.
+func (h *H) nullCorpus() {
+	g := func(n string) *pdesc { return &pdesc{Name: n, Schema: `{"type":"string","details":{"type":"string"}}`} }
+	t := &pdesc{Name: "t", Schema: `{"type":"object","details":{"type":"tuple"},"properties":{"a":{"type":"string","details":{"type":"string","index":0}}}}`}
+	bad := &pdesc{Name: "b", Schema: `{"type":"array","details":{"type":"bool[]"}}`}
+	lists := [][]*pdesc{
+		{nil}, {nil, nil}, {nil, g("a")}, {g("a"), nil}, {g("a"), nil, t}, {g("a"), t, nil}, {nil, g("a"), t, nil},
+		{bad, nil}, {nil, bad}, {g("a"), t}, {},
+	}
+	for kind := 0; kind < 3; kind++ {
+		for _, l := range lists {
+			h.addBackNull(kind, "f", l, nil, "corpus")
+		}
+	}
+	for _, l := range lists {
+		h.addBackNull(0, "f", []*pdesc{g("a")}, l, "corpus-returns")
+		h.addBackNull(0, "f", nil, l, "corpus-returns")
+	}
+	h.addBackNull(0, "f", []*pdesc{nil}, []*pdesc{nil}, "corpus-returns")
+	// what encoding/json makes of a null entry
+	var m fftypes.FFIMethod
+	if err := json.Unmarshal([]byte(`{"name":"f","params":[null,{"name":"a","schema":{"type":"string","details":{"type":"string"}}}],"returns":[null]}`), &m); err != nil || len(m.Params) != 2 || m.Params[0] != nil || m.Params[1] == nil || len(m.Returns) != 1 || m.Returns[0] != nil {
+		h.st.ImplFailures = append(h.st.ImplFailures, map[string]interface{}{"what": "harness assumption broken: a null entry of a parameter list does not decode to a nil *FFIParam", "key": "harness-assumption"})
+	} else {
+		func() {
+			defer func() {
+				if x := recover(); x != nil {
+					h.st.ImplFailures = append(h.st.ImplFailures, map[string]interface{}{"what": "the FFI -> ABI conversion panicked on the decoded definition {\"name\":\"f\",\"params\":[null,...],\"returns\":[null]}: " + fmt.Sprint(x)})
+				}
+			}()
+			if e, err := ffi2abi.ConvertFFIMethodToABI(ctx, &m); err == nil || e != nil {
+				h.st.ImplFailures = append(h.st.ImplFailures, map[string]interface{}{"what": "the FFI -> ABI conversion accepted a decoded definition with null entries in its parameter lists"})
+			}
+		}()
+	}
+}
